@@ -267,9 +267,9 @@ func main() {
 		debugDump(c)
 		return
 	}
-	reps, nModels, nForeign, cliModels, cliReps := 8, 14, 6, 1, 2
+	reps, nModels, nForeign, cliModels, cliReps := 8, 12, 4, 1, 2
 	if c.Thorough() {
-		reps, nModels, nForeign, cliModels, cliReps = 50, 60, 30, 3, 10
+		reps, nModels, nForeign, cliModels, cliReps = 30, 40, 12, 2, 6
 	}
 	if c.Search {
 		reps, nModels = reps*2, nModels*3
@@ -290,8 +290,12 @@ func main() {
 	}
 	c.Res.Extra["reps_slow_generators"] = slowReps
 
+	skip := func(s string) bool { return strings.Contains(os.Getenv("C19_SKIP"), s) } // development aid
 	// stream 1: regression corpus (inputs of earlier findings, hand-minimised)
 	for i, in := range corpusInputs() {
+		if skip("corpus") {
+			break
+		}
 		r.submit(syslGens, in, reps*2, fmt.Sprintf("corpus[%d]", i), nil)
 		c.Hist("stream:corpus")
 	}
@@ -318,28 +322,43 @@ func main() {
 	}
 	// stream 3: hostile / odd models
 	for i, in := range oddInputs(c.Rng.Fork()) {
+		if skip("odd") {
+			break
+		}
 		r.submit(syslGens, in, reps, fmt.Sprintf("odd[%d]", i), nil)
 		c.Hist("stream:odd")
 	}
 	// stream 4: foreign specs for import
 	for _, kind := range []string{"openapi3", "swagger", "xsd"} {
-		gs := gensFor(kind, false)
-		for i := 0; i < nForeign; i++ {
+		if skip("foreign") {
+			break
+		}
+		gs := append(gensFor(kind, false), gensFor(kind, true)...)
+		nf, nr, rp := nForeign, 8, reps
+		if gs[0].slow { // the OpenAPI3 importer runs an arr.ai script: seconds per call
+			nf, nr, rp = 1, 1, 2
+			if c.Thorough() {
+				nf, nr, rp = 4, 6, 4
+			}
+		}
+		for i := 0; i < nf; i++ {
 			in := &input{Text: genForeign(c.Rng.Fork(), kind, 1+i%3)}
-			r.submit(gs, in, reps, "generated-"+kind, nil)
+			r.submit(gs, in, rp, "generated-"+kind, nil)
 			c.Hist("stream:foreign-" + kind)
 		}
-		for _, f := range corpusForeign(kind, c.Thorough()) {
+		for i, f := range corpusForeign(kind, c.Thorough()) {
 			b, err := os.ReadFile(f)
-			if err != nil {
+			if err != nil || i >= nr && !c.Thorough() {
 				continue
 			}
-			r.submit(gs, &input{Text: string(b)}, reps, "repo:"+filepath.Base(f), nil)
+			r.submit(gs, &input{Text: string(b)}, rp, "repo:"+filepath.Base(f), nil)
 			c.Hist("stream:repo-" + kind)
 		}
 	}
 	// stream 5: the repository's own models through the generators that need no project app
-	r.repoModels(reps)
+	if !skip("repo") {
+		r.repoModels(reps)
+	}
 	r.runJobs()
 	c.Res.Extra["t_inprocess_s"] = int(time.Since(t0).Seconds())
 	// stream 6: CLI subprocesses
